@@ -452,14 +452,20 @@ func joinViews(ctx context.Context, scope *ReferenceScope, view *View, joinView 
 		alternatives := make(map[int]int)
 
 		for i := range includeFields {
-			idx, _ := view.Header.SearchIndex(includeFields[i])
+			idx, err := view.FieldIndex(includeFields[i])
+			if err != nil {
+				return err
+			}
 			if includeIndices.Exists(uint(idx)) {
 				// The column is listed more than once in the USING clause. It is one join column.
 				continue
 			}
 			includeIndices.Add(uint(idx))
 
-			eidx, _ := view.Header.SearchIndex(excludeFields[i])
+			eidx, err := view.FieldIndex(excludeFields[i])
+			if err != nil {
+				return err
+			}
 			excludeIndices.Add(uint(eidx))
 
 			alternatives[idx] = eidx
